@@ -173,7 +173,9 @@ def override_key(c):
 # ---------------------------------------------------------------------------------------
 # formula half
 
-P_GRID = [0.0, 1e-9, 1e-6, 1e-3, 0.01, 0.1, 0.25, 0.5, 0.75, 0.9, 0.99, 0.999, 1 - 1e-6, 1 - 1e-9, 1.0]
+P_GRID = [0.0, 1e-16, 1e-12, 1e-9, 1e-6, 1e-3, 0.01, 0.1, 0.25, 0.5, 0.75, 0.9, 0.99, 0.999,
+          1 - 1e-6, 1 - 1e-9, 1 - 1e-12, 1.0]
+NEAR_EDGE = [1e-9, 1e-7, 1e-5, 1e-3]     # x = boundary + t * inter-quartile range
 Q_PLACES = [1e-12, 1e-9, 1e-6, 1e-3, 0.01, 0.05, 0.25, 0.5, 0.75, 0.95, 0.99, 0.999, 1 - 1e-6, 1 - 1e-9,
             1 - 1e-12]
 
@@ -197,9 +199,11 @@ def make_grid(fam, par, npts):
         # the documented formula is stated on one period; the table stays inside it
         eps = 1e-9
         pts = {x for x in pts if lo_f + eps <= x <= hi_f - eps} | {lo_f + eps, hi_f - eps}
+        pts |= {lo_f + t * s for t in NEAR_EDGE}
     else:
         if lo_f is not None:
             pts |= {lo_f - 3 * s, lo_f - 1e-3 * s, lo_f + 1e-6 * s}
+            pts |= {lo_f + t * s for t in NEAR_EDGE}
             if R.M(lo_f) == lo:
                 pts.add(lo_f)
         if hi_f is not None:
@@ -230,7 +234,7 @@ def laws_record(vc, rid, case):
     from . import reference as R
 
     fam, cl, par = case["fam"], list(case["cl"]), case["par"]
-    rec = dict(id=rid, kind="laws", fam=fam, cl=cl, rep=case["rep"], exc="")
+    rec = dict(id=rid, kind="laws", fam=fam, cl=cl, ext=list(case.get("ext", [0, 0])), rep=case["rep"], exc="")
     with warnings.catch_warnings(), np.errstate(all="ignore"):
         warnings.simplefilter("ignore")
         xs, s, lo, hi = make_grid(fam, par, case["npts"])
@@ -251,8 +255,14 @@ def laws_record(vc, rid, case):
         lo_f = -np.inf if lo == -R.INF else float(lo)
         hi_f = np.inf if hi == R.INF else float(hi)
         fsgn, fcls, frel, fabs_ = [], [], [], []
-        rtxin, rtx = [], []
+        rtxin, rtx, rtxtail = [], [], []
         Fref = []
+
+        def dist_of(v):
+            """distance from the nearest finite support boundary (scale of the table if there is none)"""
+            cand = [abs(v - e) for e in (lo_f, hi_f) if math.isfinite(e)]
+            return max(min(cand), 1e-300) if cand else max(abs(v), s)
+
         for i, x in enumerate(xs):
             X = R.M(x)
             sd = -1 if X < lo else (1 if X > hi else 0)
@@ -262,6 +272,12 @@ def laws_record(vc, rid, case):
             fin = bool(np.isfinite(F[i]))
             Ffin.append(fin)
             Fq.append(Qc(F[i], 1e9, -BIG, BIG) if fin else 0)
+            if fin and sd == 0 and abs(R.M(float(F[i])) - fr) > 2e-9:
+                # conditioning: the documented cdf over the x-interval a double resolves (steep cdf at a
+                # singular boundary, e.g. beta(b = 0.1) at loc + scale); the nearest value of that range counts
+                spn = max(abs(x), abs(lo_f) if math.isfinite(lo_f) else 0.0, abs(hi_f) if math.isfinite(hi_f) else 0.0)
+                a_, b_ = R.cdf(fam, par, x - 8 * EPS * spn), R.cdf(fam, par, x + 8 * EPS * spn)
+                fr = min(max(R.M(float(F[i])), a_), b_)
             Frq.append(Q(fr, 1e9))
             Fexact.append(bool(F[i] == (0.0 if sd < 0 else 1.0)) if sd != 0 else True)
             pr = R.pdf(fam, par, x)
@@ -294,33 +310,37 @@ def laws_record(vc, rid, case):
                         d = max(R.M(0), min(band) - fvm, fvm - max(band))
                 frel.append(Qc(d / pr, 1e12, 0, BIG) if pr > 0 else (0 if d == 0 else BIG))
                 fabs_.append(Qc(d * s, 1e12, 0, BIG))
-            inb = fin and 1e-6 <= F[i] <= 1 - 1e-6 and sd == 0 and 0 < pr < R.INF
+            inb = fin and 1e-30 <= F[i] <= 1 - 1e-9 and sd == 0 and not on_edge and 0 < pr < R.INF
             rtxin.append(bool(inb))
+            rtxtail.append(bool(inb and not (1e-6 <= F[i] <= 1 - 1e-6)))
             if inb:
                 allow = 8 * EPS * float(F[i]) / float(pr) + dx
-                rtx.append(Qc(max(0.0, abs(GF[i] - x) - allow) / max(abs(x), s), 1e12, 0, BIG))
+                rtx.append(Qc(max(0.0, abs(GF[i] - x) - allow) / dist_of(x), 1e12, 0, BIG))
             else:
                 rtx.append(0)
         # icdf against the documented cdf: F_ref(G - d) <= p <= F_ref(G + d), d = 1e-8 relative
-        gok, pin, rtp = [], [], []
+        gok, pin, rtp, ptail = [], [], [], []
         for j, p in enumerate(P_GRID[1:-1]):
             g = G[1 + j]
+            tail = not (1e-6 <= p <= 1 - 1e-6)
+            ptail.append(tail)
+            P = R.M(p)
             if not np.isfinite(g):
                 gok.append(False)
+                span = 0.0
             else:
-                d = 1e-8 * max(abs(g), s)
-                P = R.M(p)
-                gok.append(bool(R.cdf(fam, par, g - d) - PTOL <= P <= R.cdf(fam, par, g + d) + PTOL))
-            pin.append(1e-6 <= p <= 1 - 1e-6)
-            err = abs(FG[j] - p)
-            if np.isfinite(g):
                 span = max(abs(g), abs(lo_f) if math.isfinite(lo_f) else 0.0,
                            abs(hi_f) if math.isfinite(hi_f) else 0.0)
-                pg = R.pdf(fam, par, g)
-                if pg == R.INF:
-                    err = 0.0
-                else:
-                    err = max(0.0, err - float(pg) * 8 * EPS * span - 4 * EPS)
+                d = 1e-8 * dist_of(g) + 8 * EPS * span
+                ptol = 16 * EPS * P if tail else R.M(PTOL)
+                gok.append(bool(R.cdf(fam, par, g - d) - ptol <= P <= R.cdf(fam, par, g + d) + ptol))
+            pin.append(True)
+            err = abs(FG[j] - p)
+            if np.isfinite(g):
+                # representation error of the intermediate double G(p): the documented cdf varies by this
+                # much over G -+ 8 ulp (exact form of "pdf x 8 ulp", also at a singular boundary)
+                vary = float(R.cdf(fam, par, g + 8 * EPS * span) - R.cdf(fam, par, g - 8 * EPS * span))
+                err = max(0.0, err - vary - (16 if tail else 4) * EPS * p)    # tails: IcdfPUlps of p
             rtp.append(Qc(err / min(p, 1 - p), 1e12, 0, BIG))
         if fam == "VonMises":
             gend = "na"
@@ -374,8 +394,8 @@ def laws_record(vc, rid, case):
         if fam == "NormFit":
             momrel = Qc(normfit_moment_error(dist, par), 1e12, 0, BIG)
         rec.update(par={k: repr(v) for k, v in par.items()}, npts=n, side=side, Ffin=Ffin, Fq=Fq, Frq=Frq, Fexact=Fexact,
-                   fsgn=fsgn, fcls=fcls, frel=frel, fabs=fabs_, rtxin=rtxin, rtx=rtx,
-                   gok=gok, pin=pin, rtp=rtp, gend=gend, gtolE12=10000, gptolE15=1000,
+                   fsgn=fsgn, fcls=fcls, frel=frel, fabs=fabs_, rtxin=rtxin, rtx=rtx, rtxtail=rtxtail,
+                   gok=gok, pin=pin, ptail=ptail, rtp=rtp, gend=gend, gtolE12=10000, gptolE15=1000, gpulps=16,
                    dlo=dlo, dmid=dmid, dhi=dhi, dslope=dsl,
                    kexc=kexc, kshape=bool(kshape), krel=Qc(krel, 1e15, 0, BIG), momrel=momrel)
     return rec
@@ -402,7 +422,9 @@ def normfit_moment_error(dist, par):
 
 
 def laws_key(c):
-    return (f"{c['fam']} class={''.join(map(str, c['cl']))} rep={c['rep']} "
+    ext = c.get("ext", [0, 0])
+    return (f"{c['fam']} class={''.join(map(str, c['cl']))} "
+            + (f"ext=slot{ext[0]}.level{ext[1]} " if ext[0] else "") + f"rep={c['rep']} "
             + " ".join(f"{k}={v:.6g}" for k, v in c["par"].items()))
 
 
@@ -432,6 +454,11 @@ def law_cases(ctx, classes):
     rng = np.random.default_rng(ctx.seed + 505)
     out = []
     for c in classes:
+        ext = list(c.get("ext", [0, 0]))
+        if ext[0]:      # extreme level of one slot: one canonical table
+            out.append(dict(fam=c["fam"], cl=list(c["cl"]), ext=ext, rep=0, npts=npts,
+                            par=D.concretise(c["fam"], c["cl"], 0, rng, ext)))
+            continue
         for rep in range(reps):
             # rep 0 is canonical only for seed 0, so that other seeds explore other numbers
             r = rep if ctx.seed == 0 else rep + 1
@@ -498,10 +525,17 @@ def laws_detail(r, clause):
     if clause == "PdfMatchesDocumentedFormula":
         bad = [(a, b) for a, b, c in zip(r["frel"], r["fabs"], r["fcls"]) if c == 0 and a > 10000 and b > 1000]
         return f"(rel,abs)e-12 worst {max(bad) if bad else None}"
-    if clause in ("RoundTripX", "RoundTripP"):
-        return f"rtx max {max(r['rtx'])}e-12, rtp {r['rtp']}"
-    if clause == "IcdfMatchesDocumentedFormula":
-        return f"gok={r['gok']} gend={r['gend']}"
+    if clause in ("RoundTripX", "RoundTripXFarTail"):
+        t = clause.endswith("Tail")
+        return f"max G(F(x))-x relative to the distance from the boundary: {max([v for v, k, i in zip(r['rtx'], r['rtxtail'], r['rtxin']) if i and k == t] or [0])}e-12"
+    if clause in ("RoundTripP", "RoundTripPFarTail"):
+        t = clause.endswith("Tail")
+        return "F(G(p))-p relative to min(p,1-p), e-12: " + str(
+            {P_GRID[1 + j]: v for j, v in enumerate(r["rtp"]) if v > 100000 and r["ptail"][j] == t})
+    if clause in ("IcdfMatchesDocumentedFormula", "IcdfFarTailMatchesDocumentedFormula"):
+        t = "FarTail" in clause
+        bad = [P_GRID[1 + j] for j, ok in enumerate(r["gok"]) if not ok and r["ptail"][j] == t]
+        return f"icdf off the documented quantile at p={bad} gend={r['gend']}"
     if clause == "PdfIsDerivative":
         return f"triples(lo,mid,hi,slope)e-6 first {list(zip(r['dlo'], r['dmid'], r['dhi'], r['dslope']))[:3]}"
     if clause == "NormFitMoments":
@@ -544,14 +578,22 @@ def selftest(ctx, orec, lrec):
     k0 = [i for i, c in enumerate(lrec["fcls"]) if c == 0][0]
     fr[k0] = 20000; fa[k0] = 5000
     mut(lrec, "PdfMatchesDocumentedFormula", frel=fr, fabs=fa)
-    gk = list(lrec["gok"]); gk[3] = False
+    gk = list(lrec["gok"]); gk[7] = False
     mut(lrec, "IcdfMatchesDocumentedFormula", gok=gk)
-    if any(lrec["rtxin"]):
-        k = lrec["rtxin"].index(True)
+    gk = list(lrec["gok"]); gk[0] = False
+    mut(lrec, "IcdfFarTailMatchesDocumentedFormula", gok=gk)
+    if any(a and not b for a, b in zip(lrec["rtxin"], lrec["rtxtail"])):
+        k = [a and not b for a, b in zip(lrec["rtxin"], lrec["rtxtail"])].index(True)
         rx = list(lrec["rtx"]); rx[k] = 200000
         mut(lrec, "RoundTripX", rtx=rx)
-    rp = list(lrec["rtp"]); rp[6] = 200000
+    rp = list(lrec["rtp"]); rp[7] = 200000
     mut(lrec, "RoundTripP", rtp=rp)
+    rp = list(lrec["rtp"]); rp[1] = 200000
+    mut(lrec, "RoundTripPFarTail", rtp=rp)
+    if any(lrec["rtxtail"]):
+        k = lrec["rtxtail"].index(True)
+        rx = list(lrec["rtx"]); rx[k] = 200000
+        mut(lrec, "RoundTripXFarTail", rtx=rx)
     if lrec["dslope"]:
         ds = list(lrec["dslope"]); ds[0] = int(ds[0] * 1.01) + 10
         mut(lrec, "PdfIsDerivative", dslope=ds)
@@ -587,7 +629,9 @@ def run(ctx):
                 "construct/evaluate history of up to 3 ScipyDistribution instances (4 operations). formula: TLC "
                 "enumerates parameter classes (shape <1/=1/>1, scale 1e-3/1/1e3, location 0/+/-) per family "
                 "(quick: orthogonal array, canonical numbers; thorough: all classes x 6 concretisations, 5 of them seeded random); each is tabulated on a grid over the "
-                "support, its boundary, zero and negative x; non-trivial = table has derivative triples; distinct = "
+                "support, its boundary (down to boundary + 1e-9 inter-quartile ranges), zero and negative x, probabilities "
+                "from 1e-16 to 1 - 1e-12; plus TLC-enumerated extreme levels of one slot (shape 0.1 / 0.3 / 0.5 / 25, "
+                "scale 1e-8 / 1e8); non-trivial = table has derivative triples; distinct = "
                 "distinct (family, class, parameter vector)")
     ctx.trusted = ["TLC 1.8 evaluating spec/ParamRoutingOps.tla, spec/DistLawsOps.tla clause operators",
                    "mpmath 1.3 (30 digits) closed forms of the documented formulas in harness/reference.py "
